@@ -316,6 +316,7 @@ def run(tier, pid):
             ("rt_exp_xfdec.cfg", ("ext", "py26", "stream"), {}),
             ("rt_exp_details.cfg", ("ext", "tt"), {}),
             ("rt_exp_nested.cfg", ("ext",), {}),
+            ("rt_exp_sibling.cfg", ("ext", "tt"), {}),
             ("rt_exp_patch.cfg", ("ext",), {}),
             ("rt_exp_handlers.cfg", ("ext", "py27"), {}),
             ("rt_exp_triples.cfg", ("ext", "py27", "stream"), {}),
@@ -332,6 +333,7 @@ def run(tier, pid):
             ("rt_exp_details_t.cfg", ("ext", "tt"), {}),
             ("rt_exp_details2.cfg", ("ext",), {}),
             ("rt_exp_nested.cfg", ("ext",), {}),
+            ("rt_exp_sibling.cfg", ("ext", "tt"), {}),
             ("rt_exp_patch.cfg", ("ext",), {}),
             ("rt_exp_handlers.cfg", ("ext", "py27"), {}),
             ("rt_exp_triples.cfg", ("ext", "py27", "stream"), {}),
